@@ -328,9 +328,11 @@ def run(prog: Program, res: Result, tier: str) -> None:
     for sub in body_walk(ph.node):
         if isinstance(sub, ast.Assign) and any(norm(t) == "header['nsamples']" for t in sub.targets):
             found = True
-            v = sub.value
+            fph = flow_of(ph)
+            v = fph.expand(sub.value, fph.cfg.node_for(sub))   # through temporaries and dissolved helpers
             divs = [b for b in ast.walk(v) if isinstance(b, ast.BinOp) and isinstance(b.op, (ast.Div, ast.FloorDiv))]
-            if divs and all(isinstance(b.op, ast.FloorDiv) for b in divs) and "datalen" in norm(v):
+            src_txt = norm(sub.value) + " " + norm(v)
+            if divs and all(isinstance(b.op, ast.FloorDiv) for b in divs) and any(w in src_txt for w in ("datalen", "hdrlen", "filelen", ".tell")):
                 res.ok("O6", ph, sub, "sample count = floor(8*datalen/nbits/nchans): a torn trailing sample is ignored", key="nsamples")
             else:
                 res.bad("O6", ph, sub, "sample count is not the floor of the data length over the sample size", key="nsamples")
